@@ -528,8 +528,14 @@ def rand_point(rng, P, near=None):
 def smp_lockstep(ck, hbin, rng, tag, cmpst, nonmonotone=False):
     """one direct-sampler script + one rejection-sampler script on the same problem.  returns #bad"""
     P = gen_problem(rng)
-    while nonmonotone and len(set(dist(s, g) for s, g in pairs_of(P))) < 2:
-        P = gen_problem(rng)      # the erasure scenario needs at least two different focal distances
+    def _nm_ok(P_):
+        cm_ = [dist(s, g) for s, g in pairs_of(P_)]
+        if len(set(cm_)) < 2:
+            return False          # the erasure scenario needs at least two different focal distances
+        tot_ = space_measures("rv", P_["n"], P_["lo"], P_["hi"])[2]
+        return sum(phs_meas(P_["n"], c_, max(cm_) * 1.5) for c_ in cm_) < 0.5 * tot_   # so that the informed measure is not capped
+    while nonmonotone and not _nm_ok(P):
+        P = gen_problem(rng)
     n, lo, hi = P["n"], P["lo"], P["hi"]
     pairs = pairs_of(P)
     cmins = [dist(s, g) for s, g in pairs]
@@ -692,6 +698,13 @@ def judge_smp(ck, hbin, script, metas, P, cmpst, tag, nonmonotone):
                 f = "hasInformedMeasure is false for the direct sampler"
             elif not relclose(bits2f(d["~m"]), want, TOL if m.get("strict") else max(meas_tol(n, cmins[j], c) for j in m["alive"])):
                 f = "getInformedMeasure %r, analytic %r" % (bits2f(d["~m"]), want)
+            elif nonmonotone:
+                # the informed set for bound c is the union over ALL start/goal pairs with focal distance < c
+                want_all = min(tot, sum(phs_meas(n, cm_, c) for cm_ in cmins if cm_ < c))
+                if bits2f(d["~m"]) < want_all * (1 - 1e-6):
+                    f = ("getInformedMeasure(%r) = %r omits start/goal pairs erased by an earlier, lower bound (all pairs with focal distance < c: %r)"
+                         % (c, bits2f(d["~m"]), want_all))
+                    fclass = "erased-phs-not-restored"
         elif kind == "im2":
             c, mc2 = m["c"], m["minc"]
             hi_ = min(tot, sum(phs_meas(n, cmins[j], c) for j in m["alive"] if cmins[j] < c))
